@@ -297,6 +297,12 @@ func beU32(b []byte) uint32 {
 
 func gen(c *lib.Ctx) {
 	g := &runner{c: c}
+	if os.Getenv("C13_PART") == "ident" {
+		// property C06 runs only the client-identity histories of this harness
+		genIdent(g, c.Rand.Fork("ident"), c.Scale(150, 1500))
+		killChildren()
+		return
+	}
 	genAuthFuncs(c)
 	c.Comment("reset stateless ops")
 	genMalformed(g, c.Rand.Fork("malformed"), c.Scale(80, 400))
@@ -307,6 +313,7 @@ func gen(c *lib.Ctx) {
 	genSCMP(g, c.Rand.Fork("scmp"), c.Scale(500, 5000))
 	genDispatcher(g, c.Rand.Fork("disp"), c.Scale(300, 3000))
 	genKeyHistories(g, c.Rand.Fork("keys"), c.Scale(60, 600))
+	genIdent(g, c.Rand.Fork("ident"), c.Scale(60, 600))
 	killChildren()
 }
 
